@@ -233,3 +233,198 @@ Proof.
   - intro H. lia.
 Qed.
 End LP.
+
+(* ------------------------------------------------------------------ *)
+(* the driver loop and the result                                        *)
+(* ------------------------------------------------------------------ *)
+Definition lp_top (g : graph) : lpst * Z -> nat -> lpst * Z :=
+  fun '(s, first) i =>
+    let s' := lp_dfs (S (S (length g))) g i s in
+    let first' := if (first =? -1) || (nth (Z.to_nat first) (lp_h s') 0 <? nth i (lp_h s') 0)
+                  then Z.of_nat i else first in
+    (s', first').
+
+Definition lp_init (n : nat) : lpst := mkLP (repeat 0 n) (repeat (-1) n) false false.
+
+Lemma longest_path_unfold g :
+  longest_path g =
+  let '(s, first) := fold_left (lp_top g) (seq 0 (length g)) (lp_init (length g), -1) in
+  if lp_cycle s then None else Some (follow_links (S (length g)) (lp_link s) first).
+Proof. reflexivity. Qed.
+
+Record TI (g : graph) (k : nat) (st : lpst * Z) : Prop := {
+  t_inv : PInv g [] (fst st);
+  t_black : forall j, (j < k)%nat -> 0 < hv (fst st) j;
+  t_first0 : k = 0%nat -> snd st = -1;
+  t_first : (0 < k)%nat -> 0 <= snd st < Z.of_nat k /\ forall j, (j < k)%nat -> hv (fst st) j <= hv (fst st) (Z.to_nat (snd st))
+}.
+
+Lemma lp_init_TI g : TI g 0 (lp_init (length g), -1).
+Proof.
+  assert (Hh : forall v, hv (lp_init (length g)) v = 0) by (intro v; unfold hv; cbn; apply nth_repeat).
+  constructor; cbn [fst snd].
+  - constructor.
+    + cbn. apply repeat_length.
+    + cbn. apply repeat_length.
+    + intro v. rewrite Hh. split; [lia|intros []].
+    + constructor.
+    + intros v [].
+    + intro v. rewrite Hh. lia.
+    + intros x [].
+    + cbn. discriminate.
+    + intros _ v Hv. rewrite Hh in Hv. lia.
+  - intros; lia.
+  - reflexivity.
+  - intros; lia.
+Qed.
+
+Lemma lp_top_TI g k st : graph_wf g = true -> (k < length g)%nat -> TI g k st -> TI g (S k) (lp_top g st k).
+Proof.
+  intros Hwf Hk [Hi Hb H0 Hf]. destruct st as [s first]. cbn [fst snd] in *. unfold lp_top.
+  assert (Hpre : PPre g (S (S (length g))) [] k s) by (constructor; [exact Hi|exact Hk|cbn [length]; lia|exact I]).
+  pose proof (lp_dfs_spec g Hwf _ _ _ _ Hpre) as [Qi Qoof Qnw Qfr Qcy Qgr].
+  set (s' := lp_dfs (S (S (length g))) g k s) in *. fold (hv s' (Z.to_nat first)) (hv s' k).
+  assert (Hk' : 0 < hv s' k).
+  { pose proof (p_ge _ _ _ Qi k). assert (hv s' k <> -1) by (intro E; apply (p_gray _ _ _ Qi) in E; destruct E). lia. }
+  assert (Hold : forall j, (j < k)%nat -> hv s' j = hv s j) by (intros j Hj; apply Qfr; now apply Hb).
+  constructor; cbn [fst snd].
+  - exact Qi.
+  - intros j Hj. destruct (Nat.eq_dec j k) as [->|Hne]; [exact Hk'|]. rewrite Hold by lia. apply Hb. lia.
+  - intro H. lia.
+  - intros _. destruct (Nat.eq_dec k 0) as [->|Hk0].
+    + rewrite (H0 eq_refl), Z.eqb_refl. cbn [orb]. split; [lia|]. intros j Hj.
+      replace j with 0%nat by lia. rewrite Nat2Z.id. lia.
+    + destruct (Hf ltac:(lia)) as [Hr Hmax].
+      replace (first =? -1) with false by (symmetry; apply Z.eqb_neq; lia). cbn [orb].
+      destruct (Z.ltb_spec (hv s' (Z.to_nat first)) (hv s' k)) as [Hlt|Hge].
+      * rewrite Nat2Z.id. split; [lia|]. intros j Hj. destruct (Nat.eq_dec j k) as [->|Hne]; [lia|].
+        specialize (Hmax j ltac:(lia)). rewrite Hold by lia. rewrite (Hold (Z.to_nat first)) in Hlt by lia. lia.
+      * split; [lia|]. intros j Hj. destruct (Nat.eq_dec j k) as [->|Hne]; [lia|].
+        specialize (Hmax j ltac:(lia)). rewrite Hold by lia. rewrite (Hold (Z.to_nat first)) by lia. lia.
+Qed.
+
+Lemma lp_loop_TI g : graph_wf g = true -> forall k, (k <= length g)%nat ->
+  TI g k (fold_left (lp_top g) (seq 0 k) (lp_init (length g), -1)).
+Proof.
+  intros Hwf. induction k as [|k IH]; intro Hk.
+  - apply lp_init_TI.
+  - rewrite seq_S, fold_left_app. cbn [plus fold_left]. apply lp_top_TI; [exact Hwf|lia|apply IH; lia].
+Qed.
+
+Section Final.
+Variable g : graph.
+Hypothesis Hwf : graph_wf g = true.
+Variable s : lpst.
+Hypothesis Hgood : forall v, (v < length g)%nat -> 0 < hv s v /\ black_ok g s v.
+
+Lemma gedge_edge a b : gedge g a b -> edge g a b.
+Proof. intros [_ [_ H]]. exact H. Qed.
+
+Lemma heights_decrease u w : greach g u w -> hv s w < hv s u.
+Proof.
+  unfold greach, reach. intro P. induction P as [u w H|u c w H _ P IH].
+  - apply matrix_of_graph_edge in H. destruct (Hgood u (proj1 H)) as [_ [Hb _]].
+    specialize (Hb w (gedge_edge _ _ H)). lia.
+  - apply matrix_of_graph_edge in H. destruct (Hgood u (proj1 H)) as [_ [Hb _]].
+    specialize (Hb c (gedge_edge _ _ H)). lia.
+Qed.
+
+Lemma final_acyclic v : ~ greach g v v.
+Proof. intro H. apply heights_decrease in H. lia. Qed.
+
+Lemma paths_bounded q : valid_path g q -> forall v t, q = v :: t -> Z.of_nat (length q) <= hv s v.
+Proof.
+  induction 1 as [v Hv|v w t Hv Hw Ht IH]; intros v' t' E; injection E as <- <-.
+  - cbn [length]. destruct (Hgood v Hv). lia.
+  - specialize (IH w t eq_refl). destruct (Hgood v Hv) as [_ [Hb _]]. specialize (Hb w Hw).
+    cbn [length] in *. lia.
+Qed.
+
+Lemma follow_links_stop fuel link : follow_links fuel link (-1) = [].
+Proof. destruct fuel; reflexivity. Qed.
+
+Lemma follow_links_path : forall k v, (v < length g)%nat -> hv s v = Z.of_nat k ->
+  forall fuel, (k <= fuel)%nat ->
+  exists t, follow_links fuel (lp_link s) (Z.of_nat v) = v :: t /\ valid_path g (v :: t) /\ length (v :: t) = k.
+Proof.
+  induction k as [|k IH]; intros v Hv Hk fuel Hfuel.
+  { destruct (Hgood v Hv). lia. }
+  destruct fuel as [|f]; [lia|]. cbn [follow_links].
+  replace (Z.of_nat v =? -1) with false by (symmetry; apply Z.eqb_neq; lia). rewrite Nat2Z.id.
+  fold (lk s v). destruct (Hgood v Hv) as [_ [Hb [[Hl H1]|[w [Hl [He Hh]]]]]].
+  - rewrite Hl, follow_links_stop. exists []. repeat split; [now apply vp_one|cbn [length]; lia].
+  - rewrite Hl. assert (Hwlt : (w < length g)%nat) by (eapply edge_dst_lt; eauto).
+    destruct (IH w Hwlt ltac:(lia) f ltac:(lia)) as [t [E [Hp Hlen]]].
+    rewrite E. exists (w :: t). repeat split; [now apply vp_cons|cbn [length] in *; lia].
+Qed.
+End Final.
+
+Theorem longest_path_spec g : graph_wf g = true -> (1 <= length g)%nat -> longest_ok g (longest_path g).
+Proof.
+  intros Hwf Hn. rewrite longest_path_unfold.
+  pose proof (lp_loop_TI g Hwf (length g) (le_n _)) as HT.
+  destruct (fold_left (lp_top g) (seq 0 (length g)) (lp_init (length g), -1)) as [s first].
+  destruct HT as [Hi Hb _ Hf]. cbn [fst snd] in *. destruct (Hf ltac:(lia)) as [Hfr Hmax].
+  destruct (lp_cycle s) eqn:Ec; cbn [longest_ok].
+  - apply (p_cyc _ _ _ Hi Ec).
+  - assert (Hgood : forall v, (v < length g)%nat -> 0 < hv s v /\ black_ok g s v).
+    { intros v Hv. split; [now apply Hb|]. apply (p_good _ _ _ Hi Ec). now apply Hb. }
+    assert (Hac := final_acyclic g s Hgood).
+    set (f := Z.to_nat first). assert (Hflt : (f < length g)%nat) by (unfold f; lia).
+    set (k := Z.to_nat (hv s f)).
+    assert (Hk : hv s f = Z.of_nat k) by (unfold k; destruct (Hgood f Hflt); lia).
+    (* with fuel k the links give a valid path of k vertices; acyclicity bounds k by the vertex count *)
+    destruct (follow_links_path g Hwf s Hgood k f Hflt Hk k (le_n _)) as [t0 [_ [Hp0 Hl0]]].
+    pose proof (nodup_path_short g _ Hp0 (acyclic_path_nodup g Hac _ Hp0)) as Hshort.
+    destruct (follow_links_path g Hwf s Hgood k f Hflt Hk (S (length g)) ltac:(lia)) as [t [E [Hp Hl]]].
+    replace first with (Z.of_nat f) by (unfold f; lia). rewrite E.
+    split; [exact Hac|]. split; [exact Hp|].
+    intros q Hq. destruct q as [|v tq]; [inversion Hq|].
+    assert (Hv : (v < length g)%nat) by (apply (valid_path_in_range g _ Hq); now left).
+    pose proof (paths_bounded g s Hgood _ Hq v tq eq_refl) as Hb1.
+    specialize (Hmax v Hv). fold f in Hmax. lia.
+Qed.
+
+Lemma longest_path_empty : longest_path [] = Some [].
+Proof. reflexivity. Qed.
+
+(* so the certificate always passes *)
+Lemma height_realised g : graph_wf g = true -> forall fuel v, (v < length g)%nat -> (1 <= fuel)%nat ->
+  exists q, valid_path g (v :: q) /\ length (v :: q) = height fuel g v.
+Proof.
+  intros Hwf. induction fuel as [|f IHf]; intros u Hu Hf; [lia|]. cbn [height].
+  destruct f as [|f'].
+  { assert (E : forall l, fold_left Nat.max (map (height 0 g) l) 0%nat = 0%nat).
+    { induction l as [|x l IHl]; [reflexivity|]. cbn [map fold_left height Nat.max]. exact IHl. }
+    rewrite E. exists []. split; [now apply vp_one|reflexivity]. }
+  destruct (fold_max_in (map (height (S f') g) (nth u g [])) 0) as [H0|H0].
+  - rewrite H0. exists []. split; [now apply vp_one|reflexivity].
+  - apply in_map_iff in H0 as [w [Hw Hwin]]. rewrite <- Hw.
+    assert (Hwlt : (w < length g)%nat) by (eapply edge_dst_lt; eauto).
+    destruct (IHf w Hwlt ltac:(lia)) as [q [Hq Hl]].
+    exists (w :: q). split; [now apply vp_cons|cbn [length] in *; lia].
+Qed.
+
+Lemma check_longest_complete g res : graph_wf g = true -> (1 <= length g)%nat ->
+  longest_ok g res -> check_longest g res = true.
+Proof.
+  intros Hwf Hn. unfold longest_ok, check_longest. destruct res as [p|]; [|apply cyclicb_spec].
+  intros [Hac [Hp Hmax]].
+  assert (Hcb : cyclicb g = false).
+  { destruct (cyclicb g) eqn:E; [|reflexivity]. apply cyclicb_spec in E as [v Hv]. exfalso. now apply (Hac v). }
+  rewrite Hcb. cbn [negb andb]. rewrite (proj2 (valid_pathb_spec g p) Hp). cbn [andb].
+  apply Nat.eqb_eq. apply Nat.le_antisymm.
+  - destruct p as [|v t]; [inversion Hp|].
+    apply fold_max_le. right. exists (height (length g) g v). split.
+    + apply in_map. apply in_seq. pose proof (valid_path_in_range g _ Hp v (or_introl eq_refl)). lia.
+    + apply height_bounds_paths; [exact Hp|]. apply (nodup_path_short g _ Hp (acyclic_path_nodup g Hac _ Hp)).
+  - destruct (fold_max_in (map (height (length g) g) (seq 0 (length g))) 0) as [H|H].
+    + rewrite H. lia.
+    + apply in_map_iff in H as [v [Hv Hin]]. rewrite <- Hv. apply in_seq in Hin.
+      destruct (height_realised g Hwf (length g) v ltac:(lia) Hn) as [q [Hq Hl]].
+      rewrite <- Hl. now apply Hmax.
+Qed.
+
+Corollary longest_path_passes_certificate g : graph_wf g = true -> (1 <= length g)%nat ->
+  check_longest g (longest_path g) = true.
+Proof. intros Hwf Hn. apply check_longest_complete; try assumption. now apply longest_path_spec. Qed.
